@@ -201,9 +201,9 @@ struct InterfaceMethod {
     template <typename Receiver, typename... Passthrough>
     Status<void> Dispatch(Receiver* receiver, Class* instance,
                           Passthrough&&... passthrough) const {
-      return Helper<typename HandlerArgs<Method>::TrimmedSignature>::Dispatch(
-          receiver, instance, method,
-          std::forward<Passthrough>(passthrough)...);
+      return Helper<typename HandlerArgs<Method>::TrimmedSignature>::
+          DispatchMethod(receiver, instance, method,
+                         std::forward<Passthrough>(passthrough)...);
     }
   };
 
@@ -271,8 +271,8 @@ struct InterfaceMethod {
     // to the receiver.
     template <typename Receiver, typename Class, typename Op,
               typename... Passthrough>
-    static Status<void> Dispatch(Receiver* receiver, Class* instance, Op&& op,
-                                 Passthrough&&... passthrough) {
+    static Status<void> DispatchMethod(Receiver* receiver, Class* instance,
+                                       Op&& op, Passthrough&&... passthrough) {
       ArgsTuple args;
       auto status = receiver->GetArgs(&args);
       if (!status)
